@@ -100,7 +100,9 @@ func behaviour(e *fw.Env, l *Lab, ctx sdk.Context, probes []Dest) string {
 				o := run.Do(l.W, b, t, run.Mode{Kind: "H"})
 				e.Res.Eval()
 				Universal(e.Res, o)
-				fmt.Fprintf(&sb, "%s fee=%v pt=%d: %s | %s | %v\n", d.Name, fee, ptLen, o.Res.String(), o.Delta.String(), run.StatsDelta(o.StatsBefore, o.StatsAfter))
+				// coins sitting on the orbiter account are bank state, not orbiter genesis: the sweep
+				// to the dust collector is left out of the comparison (a fresh chain has no dust)
+				fmt.Fprintf(&sb, "%s fee=%v pt=%d: %s | %s | %v\n", d.Name, fee, ptLen, o.Res.String(), thirdPartyDelta(o.Delta), run.StatsDelta(o.StatsBefore, o.StatsAfter))
 			}
 		}
 	}
